@@ -9,7 +9,7 @@ use vcore::ev::{catch, h64, Check, Ctx, Failure, SplitMix};
 use vcore::gen::{build, Shape};
 use vcore::jsonck::{self, J};
 
-use crate::frames::{base_shapes, drive, Suite};
+use crate::frames::{base_shapes, drive, drive_families, replay_family, Suite};
 
 const ADDR_DFS: [u8; 9] = [0, 4, 5, 11, 16, 17, 18, 20, 21];
 
@@ -137,6 +137,9 @@ pub fn run(ctx: &Ctx) {
     suite.random /= 4;
     suite.sweep16 = false;
     drive(ctx, &suite, &|f| check_json(ctx, f));
+    // 2b. the record is a function of the frame only ("decoding that hex again gives the same fields"): related frames
+    //     in several orders on one thread must serialise identically each time
+    drive_families(ctx, "c07", ctx.tier.pick(120_000, 1_600_000), &json_observable);
     // 3. thorough: coverage-guided campaign (libFuzzer), JSON oracle inside the target
     crate::fuzzrun::decode_campaign(ctx, "c07", &|f| check_json(ctx, f));
     for h in ["8d4840d6990000000000001c3a5f", "8d4840d6f8000000000000dc2a8e", "8d485020994409940838175b284f"] {
@@ -146,7 +149,22 @@ pub fn run(ctx: &Ctx) {
     }
 }
 
+/// The JSON a consumer sees for one input: the serialised timed record, or why there is none.
+pub fn json_observable(f: &[u8]) -> String {
+    catch(|| match Message::try_from(f) {
+        Ok(m) => {
+            let tm = TimedMessage { timestamp: 1.0, frame: f.to_vec(), message: Some(m), metadata: vec![], decode_time: None };
+            serde_json::to_string(&tm).unwrap_or_else(|e| format!("JSON ERROR {e}"))
+        }
+        Err(e) => format!("Err({e})"),
+    })
+    .unwrap_or_else(|p| format!("PANIC {p}"))
+}
+
 pub fn replay(ctx: &Ctx, v: &Value) {
+    if v["kind"] == "family" {
+        return replay_family(ctx, "c07", v, &json_observable);
+    }
     let frame = v["frame"].as_str().and_then(|x| hex::decode(x).ok()).unwrap_or_default();
     ctx.judge(check_json(ctx, &frame));
 }
